@@ -1093,6 +1093,10 @@ func (h *histRun) monitorIter(o hop, opIdx int, rep *replica, got []iface.IPFSLo
 			h.fail("C15", "iterator-nodup", "C15:duplicate", "entry emitted twice", opIdx)
 		}
 		seen[e.GetHash().String()] = true
+		// C15_emits_only_log_entries_in_every_history: whatever the ordering and the shape of the log
+		if inLog[e.GetHash().String()] == nil {
+			h.fail("C15", "iterator-emits-log-entries", "C15:emits-entry-not-in-log", "Iterator emitted an entry the log does not hold", opIdx)
+		}
 	}
 	total := rep.sort == "hash" || !hasTies(entries)
 	if !total {
